@@ -5,6 +5,7 @@ import scen_common, prop_mu_family
 PID = "C14"
 PROP_V = "Props/Properties_C14.v"
 GEN_MODULES = ["Consts", "Sites"]
+FLOW_FILES = ['mu.c']
 REPLAY_HINT = "VRT_SEED=<seed> VRT_ADVERSARY=1 VRT_KIND=<0|1|2> _work/h/starve: the trace notes how often the victim slept inside one lock call"
 PARTIAL = ["the numeric bound on the victim's sleeps (C14_bound) is not proved: the four lemmas it follows from are (barrier, escalation + "
            "enqueue-sets-bit, front re-queueing, a woken waiter ignores the barrier); the bound itself is asserted by the adversarial-schedule oracle"]
